@@ -18,7 +18,7 @@ META = {
              "one side; distinct by structural hash; non-trivial = contains a Barrier/annotation kind or an explicit relation"),
     "assumptions": ["copies are compared position-wise along the operation listing (signature, relation type, index of the referenced operation, schedule relative to the first start)"],
     "floors": {
-        "quick": {"copies_compared": 6000, "mutation_independence_checks": 3000, "kinds_min_instances": 20, "unrolled_copies_compared": 5000, "listed_then_copied_compared": 5000, "flattened_copies_compared": 5000, "empty_placeholder_checks": 3000, "copies_compared_after_registry_change": 3000},
+        "quick": {"copies_compared": 6000, "repeated_copies_schedule_compared": 3000, "mutation_independence_checks": 3000, "kinds_min_instances": 20, "unrolled_copies_compared": 5000, "listed_then_copied_compared": 5000, "flattened_copies_compared": 5000, "empty_placeholder_checks": 3000, "copies_compared_after_registry_change": 3000},
         "thorough": {"copies_compared": 60000, "mutation_independence_checks": 30000, "kinds_min_instances": 200},
     },
 }
@@ -176,6 +176,21 @@ def check_program(prog: Dict[str, Any], acc: Acc, flags=None):
             only_a, only_b = snap.multiset_diff(got, once + once)
             acc.finding("copy/repetition-content", "a block repeated twice does not list twice the block's operations", case,
                         {"only_library": only_a[:4], "only_expected": only_b[:4]})
+        elif len(got) >= 2:
+            # the two chained copies have the same schedule relative to their own start: the unrolled listing is copy 1 followed by
+            # copy 2 (the heads of copy 2 hang below the deepest leaf of copy 1), times relative to the first listed operation of each
+            # half (seeded change C05-r11: heads of a repeated copy serialised because each saw the previous head already attached)
+            ops3, t3 = listing_with_shadow(mod3)
+            half = len(ops3) // 2
+            halves = []
+            for part_ops, part_t in ((ops3[:half], t3[:half]), (ops3[half:], t3[half:])):
+                t0 = part_t[0][0]
+                halves.append(sorted((snap.op_sig(o), round(t[0] - t0, 6), round(t[1] - t0, 6)) for o, t in zip(part_ops, part_t)))
+            acc.count("repeated_copies_schedule_compared")
+            if halves[0] != halves[1]:
+                only_a, only_b = snap.multiset_diff(halves[0], halves[1])
+                acc.finding("copy/repetition-schedule", "the second of two chained copies of a block does not have the first copy's schedule relative to its own start", case,
+                            {"only_first": [repr(x) for x in only_a[:3]], "only_second": [repr(x) for x in only_b[:3]]})
         # ---- route 4: copy of an UNROLLED circuit (group relations of repeated copies must be re-pointed as well)
         built4 = bp.build(prog, bp.Ctx(prog.get("settings")))
         unrolled = built4.top.circuit.apply_modifiers()
